@@ -23,7 +23,9 @@ package internal_test
 import (
 	"fmt"
 	"math/rand"
+	"os"
 	"sort"
+	"strconv"
 	"sync"
 	"sync/atomic"
 	"testing"
@@ -464,6 +466,12 @@ func TestVerifC15RaceConcurrent(t *testing.T) {
 	defer m.Done()
 	defer c15Wall(m, time.Now())
 	n := vk.N(300, 6000)
+	if v, err := strconv.Atoi(os.Getenv("C15_RACE_ROUNDS")); err == nil && v > 0 {
+		n = v // fixed by the run spec (failpoint-widened run), never a time budget
+	}
+	if fp := os.Getenv("GOFAIL_FAILPOINTS"); fp != "" {
+		m.Note("failpoints active: %s", fp)
+	}
 	for idx := 1; idx <= n; idx++ {
 		if !m.Only(idx) {
 			continue
